@@ -433,7 +433,9 @@ AdaptDC(t, x, fill) ==
   IF x.k \notin {"dict", "ns"} THEN ErrV("expected-dict-for-dataclass")
   ELSE LET key(f) == IF x.k = "dict" THEN Str(t.p[f][1]) ELSE t.p[f][1]
            given  == SelectSeq(Strict([f \in 1..Len(t.p) |-> f]), LAMBDA f : HasKey(x, key(f)) \/ fill)
-           ys     == Strict([n \in 1..Len(given) |-> IF HasKey(x, key(given[n])) THEN LoadThenAdapt(t.p[given[n]][2], GetKey(x, key(given[n])), fill) ELSE t.p[given[n]][3]])
+           ys     == Strict([n \in 1..Len(given) |-> IF ~HasKey(x, key(given[n])) THEN t.p[given[n]][3]
+                                                  ELSE IF GetKey(x, key(given[n])).k = "null" THEN NullV                  \* _core.py:1410-1411: None is taken as it is
+                                                  ELSE LoadThenAdapt(t.p[given[n]][2], GetKey(x, key(given[n])), fill)])
        IN IF \E i \in 1..Len(x.v) : ~\E f \in 1..Len(t.p) : x.v[i][1] = key(f) THEN ErrV("unknown-key")
           ELSE Lift(ys, NSV(Strict([n \in 1..Len(given) |-> <<t.p[given[n]][1], ys[n]>>])))
 
